@@ -62,7 +62,7 @@ def hint_model(h, reg: Registry):
         return ['cls', reg.id(h)]
     origin, args = T.get_origin(h), T.get_args(h)
     if is_union(h):
-        return union_model([hint_model(a, reg) for a in args])
+        return union_model([hint_model(a, reg) for a in union_members(h)])
     if origin is T.Literal:
         return ['literal'] + [[reg.id(type(a)), atom_of(a, reg)] for a in args]
     if origin is T.Annotated:
@@ -104,14 +104,39 @@ def hint_model(h, reg: Registry):
     raise NotImplementedError(repr(h))
 
 
+def shallow_reduce(a):
+    """What sanify_hint_child does to ONE node before the union factory looks at it."""
+    if isinstance(a, T.TypeVar):
+        if a.__bound__ is not None:
+            return shallow_reduce(a.__bound__)
+        if a.__constraints__:
+            return T.Union[a.__constraints__]
+        return T.Any
+    if hasattr(a, '__supertype__'):
+        return shallow_reduce(a.__supertype__)
+    if a is None:
+        return type(None)
+    return a
+
+
+def union_members(h) -> list:
+    """Members of a union as the union factory sees them: each member reduced at its own
+    node only, nested unions flattened, duplicates (equal reduced hints) dropped."""
+    out = []
+    for a in T.get_args(h):
+        a = shallow_reduce(a)
+        for b in (union_members(a) if is_union(a) else [a]):
+            if not any(b is c or (type(b) is type(c) and b == c) for c in out):
+                out.append(b)
+    return out
+
+
 def union_model(children: list):
     """Flatten nested unions, drop duplicates (first occurrence wins) — what typing and
     the union factory do before code is generated."""
     flat = []
     for c in children:
-        for d in (c[1:] if c[0] == 'union' else [c]):
-            if d not in flat:
-                flat.append(d)
+        flat.extend(c[1:] if c[0] == 'union' else [c])
     if len(flat) == 1:
         return flat[0]
     return ['union'] + flat
